@@ -166,5 +166,87 @@ fn main() {
         let r = done_rx.recv_timeout(std::time::Duration::from_secs(3));
         report(matches!(r, Ok(Ok(9))), "F-C08-2", format!("recv under YieldingWait::with_spins(0, 0) after a value was sent: {}", match r { Ok(v) => format!("{:?}", v), Err(_) => "still blocked after 3 s".to_string() }));
     }
+    // F-C08-1: shared stream, blocking recv: a sibling takes the value that arrives between the failed
+    // attempt and the moment the sleeper reads its position; the sleeper then watches the OLD slot for the
+    // NEW count and stays blocked although the next value (which only it can still take) is in the queue.
+    // Real threads, real operations; thread A is suspended just before its 6th shared-memory operation of
+    // recv() (the `load_count` after the failed try_recv) by the schedule hook of the atomic shim.
+    {
+        use multiqueue2::verif_hooks::sched;
+        use std::sync::mpsc::channel;
+        let (tx, rx_a) = mpmc_queue_with::<u64, wait::BlockingWait>(4, wait::BlockingWait::with_spins(0, 0));
+        // lap the ring once so that every slot carries a real count (not the never-written marker)
+        for i in 0..4 {
+            tx.try_send(i).unwrap();
+            assert_eq!(rx_a.try_recv(), Ok(i));
+        }
+        let rx_b = rx_a.clone();
+        sched::pause_thread_at(7, 6);
+        let (done_tx, done_rx) = channel();
+        let h = std::thread::spawn(move || {
+            sched::enter(7);
+            let r = rx_a.recv();
+            let _ = done_tx.send(r);
+        });
+        sched::wait_until_paused();
+        // A has seen "empty at position 4" and is about to re-read its position
+        tx.try_send(100).unwrap();
+        let b_got = rx_b.try_recv(); // the sibling takes value #4 and leaves
+        drop(rx_b);
+        tx.try_send(101).unwrap(); // value #5: only A can take it now
+        sched::resume();
+        let r = done_rx.recv_timeout(std::time::Duration::from_secs(3));
+        let ok = matches!(r, Ok(Ok(101)));
+        report(ok && b_got == Ok(100), "F-C08-1", format!("sibling took {:?}; blocked receiver with value 101 waiting for it: {}", b_got, match &r { Ok(v) => format!("returned {:?}", v), Err(_) => "still blocked after 3 s (watches the old slot for the new count)".to_string() }));
+        // let the stuck thread go so that the process can exit: two more values lap the watched slot
+        if !ok {
+            for v in 0..8u64 {
+                let _ = tx.try_send(200 + v);
+            }
+            drop(tx);
+        }
+        let _ = h.join();
+    }
+    // F-C10-1: add_stream on a SHARED parent stream: the parent's position is read first and the new
+    // stream list is published later; in between a sibling consumer of the parent and the producer can
+    // move on by more than the ring size.  Real threads; thread A is suspended just before the
+    // compare-exchange that publishes the new list (its 4th shared-memory operation of add_stream).
+    {
+        use multiqueue2::verif_hooks::sched;
+        use std::sync::mpsc::channel;
+        let (tx, rx_a) = broadcast_queue::<u64>(2);
+        for i in 0..10 {
+            tx.try_send(i).unwrap();
+            assert_eq!(rx_a.try_recv(), Ok(i));
+        }
+        let rx_b = rx_a.clone(); // second handle on the parent stream
+        sched::pause_thread_at(8, 4);
+        let (done_tx, done_rx) = channel();
+        let h = std::thread::spawn(move || {
+            sched::enter(8);
+            let s2 = rx_a.add_stream();
+            let _ = done_tx.send((s2, rx_a));
+        });
+        sched::wait_until_paused();
+        let paused_at_cas = sched::PAUSED_KIND.load(std::sync::atomic::Ordering::SeqCst) == 3;
+        // while A is inside add_stream: two values through the parent (taken by the sibling), two more sent
+        tx.try_send(10).unwrap();
+        tx.try_send(11).unwrap();
+        assert_eq!(rx_b.try_recv(), Ok(10));
+        assert_eq!(rx_b.try_recv(), Ok(11));
+        tx.try_send(12).unwrap();
+        tx.try_send(13).unwrap();
+        sched::resume();
+        let (s2, rx_a) = done_rx.recv_timeout(std::time::Duration::from_secs(5)).expect("add_stream returns");
+        let _ = h.join();
+        // the parent was at 10, 11 or 12 during the call: the new stream must deliver from one of those on
+        let first = s2.try_recv();
+        // the ring is full for the parent (12, 13 unconsumed): a further send must be refused
+        let extra = tx.try_send(14);
+        let parent_next = rx_b.try_recv();
+        let ok = paused_at_cas && matches!(first, Ok(10) | Ok(11) | Ok(12)) && extra.is_err() && parent_next == Ok(12);
+        report(ok, "F-C10-1", format!("(paused at the publishing CAS: {}) new stream first delivers {:?}; send into the full ring returned {:?}; parent stream then delivers {:?} (expected 12)", paused_at_cas, first, extra.map_err(|_| "Full"), parent_next));
+        drop(rx_a);
+    }
     std::process::exit(if bad > 0 { 1 } else { 0 });
 }
